@@ -22,6 +22,12 @@ func verifObj() types.Object {
 	return types.NewFunc(token.NoPos, pkg, "Convert", sig)
 }
 
+// value-string bounds (bytes); the thorough tier raises them
+var (
+	VerifC12StepMax  = 5
+	VerifC12ChainMax = 3
+)
+
 // boolean inheritable settings and the Common field(s) each designates
 var verifBoolKeys = []string{
 	"wrapErrors",                           // 0
@@ -152,7 +158,7 @@ func VerifHarness_C12_Step() {
 	c := verifArbitraryCommon("pre")
 	pre := c
 	key := nondetChoice("key", len(verifBoolKeys))
-	rest := nondetString("rest", 5)
+	rest := nondetString("rest", VerifC12StepMax)
 
 	_, err := parseCommon(&c, verifBoolKeys[key], rest)
 
@@ -202,7 +208,7 @@ func VerifHarness_C12_Strings() {
 	c := verifArbitraryCommon("pre")
 	pre := c
 	key := nondetChoice("key", 3)
-	rest := nondetString("rest", 5)
+	rest := nondetString("rest", VerifC12StepMax)
 	// reference: number of white-space separated fields
 	nfields := 0
 	in := false
@@ -261,7 +267,7 @@ func verifLevelLine(tag, key string) (lines []string, present bool, val bool, ok
 	if nondetChoice(tag+".present", 2) == 0 {
 		return nil, false, false, true
 	}
-	rest := nondetString(tag+".value", 3)
+	rest := nondetString(tag+".value", VerifC12ChainMax)
 	val, ok = verifSpecBool(rest)
 	if len(rest) == 0 && nondetChoice(tag+".bare", 2) == 0 {
 		return []string{key}, true, val, ok
